@@ -166,3 +166,6 @@ func OnceFunc(f func()) func()                                 { return gosync.O
 func OnceValue[T any](f func() T) func() T                     { return gosync.OnceValue(f) }
 func OnceValues[T1, T2 any](f func() (T1, T2)) func() (T1, T2) { return gosync.OnceValues(f) }
 func NewCond(l gosync.Locker) *gosync.Cond                     { return gosync.NewCond(l) }
+
+// ChanPoint is the scheduling point the instrumenter puts in front of channel statements.
+func ChanPoint() { vsched.Point("chan") }
